@@ -694,6 +694,14 @@ AHetTransform(kind, i, j) ==
                       [] kind = "conditional" -> Opaque("ApproxCond"),
                     0, NoObj, NoObj))
 
+\* integrate_log_conditional_y(p_x, y) of the step-link model with square A: the exact expectation (C17)
+AHetIntLogCondY(i, j, s) ==
+    LET c == heap[i] p == heap[j] R == NumR(p)
+        qY == Pick(PointMenu(HDy(c)), R, s)
+    IN /\ c.cls = "HetStep" /\ IsPdf(p) /\ NumD(p) = HDx(c) /\ HDa(c) = HDy(c) /\ R = 1
+       /\ Emit(heap, Step("HetIntLogCondY", [i |-> i, j |-> j, y |-> qY], NoObj, 0, NoObj, 0, NoObj,
+                          [val |-> MkSeq(R, LAMBDA r : StepIntLogCondY(c, p, r, QV(qY[r]), c.sh))]))
+
 \* ------------------------------------------------------------------------
 \* Properties that are meaningful in every state of every instance
 \* ------------------------------------------------------------------------
